@@ -23,7 +23,9 @@ func checkC10(c *Ctx) {
 		"K5 lock discipline: every access to pending happens with pendingMu held on all paths; Lock/Unlock balanced at every return; no double acquisition",
 		"K6 confinement: Client fields are written only in the constructor and in ClientOpt closures; closed only through sync/atomic; exactly one go of the receive loop, not in a loop",
 		"K7 per-datagram isolation: read buffer allocated inside the loop, decoder gets b[:n], decoded message does not alias it (E3)",
-		"K8 a transaction channel is closed only under the lock together with the deletion of its entry")
+		"K8 a transaction channel is closed only under the lock together with the deletion of its entry",
+		"K9 slice-typed Client state (the hardware address used by the filter) is never returned, stored or sent: accessors hand out copies",
+		"C11-K3 (shared) cancel pairing on every exit of send/SendAndRead: a failed or finished call leaves no entry behind that later datagrams could be routed to")
 	r.NotDecided = append(r.NotDecided, "linearizability over schedules", "FIFO delivery beyond one producer goroutine and one channel per transaction",
 		"data races in code outside the lock/confinement rules (user loggers, PacketConn implementations)")
 	r.Expect("C10-clients", 2)
@@ -39,6 +41,7 @@ func checkC10(c *Ctx) {
 		c10Matcher(c, a)
 		c10Locks(c, a)
 		c10Confinement(c, a)
+		c11Wait(c, a)
 	}
 }
 
@@ -649,6 +652,76 @@ func c10Confinement(c *Ctx, a *clientAnchors) {
 			}
 		})
 	}
+	// K9 the client's slice-typed state (the hardware address the receive loop filters on) is never handed out:
+	// no function returns, stores or sends a slice sharing memory with a Client field
+	nLoads := 0
+	for _, f := range a.pkgFuncs(c.P) {
+		allInstrs(f, func(in ssa.Instruction) {
+			ld, ok := in.(*ssa.UnOp)
+			if !ok || ld.Op != token.MUL {
+				return
+			}
+			fa, ok := ld.X.(*ssa.FieldAddr)
+			if !ok {
+				return
+			}
+			pt, ok := fa.X.Type().Underlying().(*types.Pointer)
+			if !ok {
+				return
+			}
+			n, ok := pt.Elem().(*types.Named)
+			if !ok || n.Obj() != a.client.Obj() {
+				return
+			}
+			if _, isSlice := ld.Type().Underlying().(*types.Slice); !isSlice {
+				return
+			}
+			fname := n.Underlying().(*types.Struct).Field(fa.Field).Name()
+			nLoads++
+			// aliases of the loaded slice
+			seen := map[ssa.Value]bool{}
+			work := []ssa.Value{ld}
+			for len(work) > 0 {
+				v := work[len(work)-1]
+				work = work[:len(work)-1]
+				if seen[v] {
+					continue
+				}
+				seen[v] = true
+				for _, ref := range *v.Referrers() {
+					switch x := ref.(type) {
+					case *ssa.Slice:
+						if x.X == v {
+							work = append(work, x)
+						}
+					case *ssa.ChangeType:
+						work = append(work, x)
+					case *ssa.Convert:
+						if _, isStr := x.Type().Underlying().(*types.Basic); !isStr {
+							work = append(work, x)
+						}
+					case *ssa.Phi:
+						work = append(work, x)
+					case *ssa.MakeInterface:
+						work = append(work, x)
+					case *ssa.Return:
+						r.Violation("C10-K9", shortName(f)+": returns memory of Client."+fname, c.P.ipos(x), "the returned slice shares its backing array with Client."+fname+": a caller writing to it changes the client's state while the receive loop reads it (v4: retargets the hardware-address filter; data race)")
+					case *ssa.Store:
+						if x.Val == v {
+							if _, isLocal := x.Addr.(*ssa.Alloc); !isLocal {
+								r.Violation("C10-K9", shortName(f)+": stores memory of Client."+fname, c.P.ipos(x), "a slice sharing memory with Client."+fname+" is stored outside the function")
+							}
+						}
+					case *ssa.Send:
+						if x.X == v {
+							r.Violation("C10-K9", shortName(f)+": sends memory of Client."+fname, c.P.ipos(x), "a slice sharing memory with Client."+fname+" is sent on a channel")
+						}
+					}
+				}
+			}
+		})
+	}
+	r.OK("C10-K9", a.short+": slice-typed Client fields are not returned, stored or sent", "-", "alias scan over loads of Client fields", fmt.Sprintf("%d loads scanned", nLoads))
 	// ClientOpt closures are applied only in the constructor, before the go
 	g := a.goIns
 	r.Check(!inCycle(g.Block()), "C10-K6", a.short+": receive loop started once (go not in a loop)", c.P.ipos(g), "go block not on a cycle", "the receive loop can be started more than once per client")
